@@ -67,7 +67,8 @@ CLAIMS['C07'] = {
             'Demuxer is run on the base order (three times), on the TLC-enumerated merges (all, or a seeded sample above a budget), with a '
             'null/adaptation-only/transport-error packet inserted at every position, and with one corruption per PID; Mon_C07 requires every PID\'s '
             'delivered sequence (digest of the whole DemuxerData) to equal the base run\'s, except on the corrupted PID; a PID whose own sequence '
-            'holds an exact copy of a table-completing packet delivers the same whether the copy is adjacent or behind a foreign packet.',
+            'holds an exact copy of a table-completing packet delivers the same whether the copy is adjacent or behind a foreign packet, and so does '
+            'a PID whose input ends between two of its packets and goes on later.',
     'note': TRUST, 'technique': 'TLA+ enumeration of schedules (TLC) + trace validation of real-code runs (Mon_C07)', 'ref': 'DESIGN.md 4 C07'}
 CLAIMS['C08'] = {
     'text': 'Reader.tla (short-read schedules x reader kinds x auto/explicit) model-checked for SameAsFull; counterexample for single-Read peek. Real '
@@ -80,14 +81,16 @@ CLAIMS['C19'] = {
     'text': 'For streams generated from Demux.tla and the seeded reference multiplexer, and nine predicate families, the real Demuxer is run with the '
             'skipper, on the filtered stream, with an observing and with a replacing PacketsParser; Mon_C19 requires: callback sequence = stream '
             'packets (once, in order, header/AF parsed), packets and data equal to the filtered stream\'s, observer leaves output unchanged and is '
-            'handed each unit once per PID (non-empty, single PID, arrival order), replacing parser\'s data (one or two per unit, with and without first packet) delivered exactly, with the content they had when returned.',
+            'handed each unit once per PID (non-empty, single PID, arrival order), replacing parser\'s data (one or two per unit, with and without first packet) delivered exactly, with the content they had when returned; '
+            'runs of more than 65 536 skipped packets are counted.',
     'note': TRUST, 'technique': 'TLA+-generated scenarios + trace validation of real-code runs (Mon_C19)', 'ref': 'DESIGN.md 4 C19'}
 CLAIMS['C20'] = {
     'text': 'For streams generated from Demux.tla and the seeded reference multiplexer x {explicit, auto}: every number k of NextData calls before '
             'Rewind, NextPacket counts, mixed and repeated rewinds on the real Demuxer; Mon_C20 requires Rewind = (0, nil) and the post-rewind '
             'deliveries to equal a fresh Demuxer\'s. Demux.tla models Rewind (pool and data buffer replaced, program map kept): C20_RewindFresh is '
             'model-checked for every consumption point, with counterexamples for a kept data buffer and for PMTs preceding their PAT; on a reader that '
-            'cannot seek the absence of residue is checked against a fresh Demuxer over the rest of the input (C20_NoSeekClean).',
+            'cannot seek the absence of residue is checked against a fresh Demuxer over the rest of the input (C20_NoSeekClean); Rewind after a reader '
+            'error, with a cancelled context and followed by NextPacket each have their own reference run.',
     'note': TRUST, 'technique': 'TLA+ model checking (TLC) + TLA+-generated scenarios + exhaustive call-count enumeration judged by trace validation (Mon_C20)', 'ref': 'DESIGN.md 4 C20, 13.7'}
 CODEC_NOTE = TRUST + ' Numeric ranges are covered structurally (0, max, every single-bit value, flag subsets, boundary lengths, seeded random), not exhaustively (DESIGN.md 6).'
 CLAIMS['C09'] = {
@@ -100,7 +103,8 @@ CLAIMS['C09'] = {
 CLAIMS['C10'] = {
     'text': 'CRC32.tla defines CRC-32/MPEG-2 bit by bit (check value, pieces = one pass, residue 0 model-checked); Mon_C10 recomputes every value '
             'observed from the real functions: all 256 table entries, single-step pairs for a GF(2)-basis of states x all bytes plus random states, all '
-            'messages of length 0..2 (thorough), random messages with every split point.',
+            'messages of length 0..2 (thorough), random messages with every split point, single passes over 64 KB and more, and messages in which the '
+            'register\'s own value or a checksum is followed by zeros.',
     'note': CODEC_NOTE, 'technique': 'TLA+ definition evaluated by TLC against values recorded from the real functions (Mon_C10)', 'ref': 'DESIGN.md 4 C10'}
 CLAIMS['C11'] = {
     'text': 'TSEncode.tla is the reference bit layout of header + adaptation field (+ extension); for structured and random packet values the real '
@@ -111,7 +115,8 @@ CLAIMS['C12'] = {
     'text': 'PESEncode.tla is the reference layout of PES headers (PTS/DTS/ESCR/ES rate/trick mode/copy info/CRC/extension fields, stuffing, length '
             'rule) and the exact Duration arithmetic; Mon_C12 requires writer bytes = Encode(value), parser on reference bytes (writer-confirmed or '
             'twin-built and TLC-re-derived) = value, payload boundaries per PES_packet_length, trick-mode decode for all 256 bytes, Duration() and Time() exact; units written through one Muxer '
-            '(given / automatic stream ids, payloads of 1 byte .. 48 KB, bounded and unbounded) come back from one Demuxer header for header and byte for byte.',
+            '(given / automatic stream ids, payloads of 1 byte .. 48 KB, bounded and unbounded) come back from one Demuxer header for header and byte for byte, '
+            'and demuxed units handed back to a Muxer come back unchanged again.',
     'note': CODEC_NOTE, 'technique': 'TLA+ reference encoding evaluated by TLC over real-code parse/write traces (Mon_C12)', 'ref': 'DESIGN.md 4 C12'}
 CLAIMS['C13'] = {
     'text': 'PSI.tla encodes PAT/PMT/SDT/NIT/EIT/TOT sections (header, syntax header, loops, descriptor loops, CRC) and is anchored by the ISO sample '
@@ -121,7 +126,7 @@ CLAIMS['C13'] = {
 CLAIMS['C14'] = {
     'text': 'Descriptors.tla holds 25 descriptor layouts + loop framing, anchored by hand-encoded known vectors; Mon_C14 requires the real '
             'writeDescriptorsWithLength bytes = LoopWithLength(values) and the length calculator = bytes emitted whatever the struct Length holds, '
-            'the real parseDescriptors on those bytes = values, and after a malformed middle descriptor an error or intact sentinels.',
+            'the real parseDescriptors on those bytes = values (loops of up to 1000 descriptors), and after a malformed middle descriptor an error or intact sentinels.',
     'note': CODEC_NOTE, 'technique': 'TLA+ reference encoding evaluated by TLC over real-code parse/write traces (Mon_C14)', 'ref': 'DESIGN.md 4 C14'}
 CLAIMS['C15'] = {
     'text': 'DVBTime.tla writes the Annex C formulas in integer arithmetic and DVBWalk.tla checks them against a calendar walk for all 50 457 days '
